@@ -231,6 +231,33 @@ public:
     return o;
   }
 
+  // values of an initialiser list of integer constants (nested lists flattened in order); false if not such a list
+  bool flattenInit(const Expr *E, json::Array &vals, unsigned &budget) {
+    E = E->IgnoreParenImpCasts();
+    if (const InitListExpr *IL = dyn_cast<InitListExpr>(E)) {
+      for (const Expr *X : IL->inits()) if (!flattenInit(X, vals, budget)) return false;
+      return true;
+    }
+    if (isa<ImplicitValueInitExpr>(E)) return false;
+    if (budget == 0) return false;
+    budget--;
+    Expr::EvalResult R;
+    if (!E->EvaluateAsInt(R, Ctx, Expr::SE_NoSideEffects)) return false;
+    llvm::APSInt I = R.Val.getInt();
+    if (I.isSigned() || I.getActiveBits() < 63) vals.push_back((int64_t)I.getExtValue());
+    else { llvm::SmallString<32> buf; I.toString(buf, 10); vals.push_back(buf.str().str()); }
+    return true;
+  }
+  bool constVals(const VarDecl *V, json::Array &vals) {
+    if (!V->hasInit()) return false;
+    const InitListExpr *IL = dyn_cast<InitListExpr>(V->getInit()->IgnoreParenImpCasts());
+    if (!IL || IL->getNumInits() == 0) return false;
+    if (!V->getType().isConstQualified() && !V->hasGlobalStorage()) return false;
+    unsigned budget = 4096;
+    if (!flattenInit(IL, vals, budget)) { vals.clear(); return false; }
+    return !vals.empty();
+  }
+
   int varId(const VarDecl *V) {
     auto it = FS->varIdx.find(V);
     if (it != FS->varIdx.end()) return it->second;
@@ -255,6 +282,7 @@ public:
     auto ib = innermostBody(V->getLocation());
     if (!ib.first.empty()) o["mb"] = ib.first;
     o["l"] = (int)lineOf(V->getLocation());
+    if (V->isStaticLocal()) { json::Array vals; if (constVals(V, vals)) o["vals"] = std::move(vals); }
     FS->vars.push_back(std::move(o));
     return id;
   }
@@ -676,24 +704,8 @@ public:
     o["extern"] = V->getStorageClass() == SC_Extern ? 1 : 0;
     if (V->getTLSKind() != VarDecl::TLS_None) o["tls"] = 1;
     o["init"] = V->hasInit() ? 1 : 0;
-    // constant tables of integers (trial-division primes, round constants): the values
-    if (V->hasInit() && V->getType().isConstQualified()) {
-      if (const InitListExpr *IL = dyn_cast<InitListExpr>(V->getInit()->IgnoreParenImpCasts())) {
-        if (IL->getNumInits() > 0 && IL->getNumInits() <= 4096) {
-          json::Array vals;
-          bool ok = true;
-          for (const Expr *E : IL->inits()) {
-            Expr::EvalResult R;
-            if (E->EvaluateAsInt(R, Ctx, Expr::SE_NoSideEffects)) {
-              llvm::APSInt I = R.Val.getInt();
-              if (I.isSigned() || I.getActiveBits() < 63) vals.push_back((int64_t)I.getExtValue());
-              else { llvm::SmallString<32> buf; I.toString(buf, 10); vals.push_back(buf.str().str()); }
-            } else { ok = false; break; }
-          }
-          if (ok) o["vals"] = std::move(vals);
-        }
-      }
-    }
+    // constant tables of integers (trial-division primes, round constants, S-boxes): the values, nested lists flattened
+    { json::Array vals; if (constVals(V, vals)) o["vals"] = std::move(vals); }
     Globals.push_back(std::move(o));
   }
 
